@@ -10,6 +10,8 @@ instance : CostNum Float where
   max1 x := if 1.0 ≤ x then x else 1.0          -- `f64::max`: NaN.max(1.0) = 1.0
   shortLine lw target frac := lw < target / Float.ofNat frac
   isInf := Float.isInf
+  le a b := a ≤ b
+  eqv a b := a == b
   decLt := fun a b => Float.decLt a b
   zero := 0.0
 
@@ -21,6 +23,8 @@ instance : CostNum Int where
   max1 x := if 1 ≤ x then x else 1
   shortLine lw target frac := frac = 0 || lw * (frac : Int) < target
   isInf _ := false
+  le a b := a ≤ b
+  eqv a b := a == b
   decLt := fun a b => Int.decLt a b
   zero := 0
 
